@@ -178,10 +178,35 @@ class LegacyOb(StmtOb):
         return {"real_ok": R.same_dump(r0, r1, self.fields), "lifted_matches": lm, "detail": {"ansi": pick(r0), "legacy": pick(r1)}}
 
 
+def extra_templates():
+    """statements kept out of the shared corpus (so that the other checks' seeded samples stay what they are): a comparison whose
+    BOTH operands are scalar subqueries, in WHERE, alone and next to an IN subquery"""
+    from checks.corpus import Alloc, q_plain, q_where_in, stmt_of
+    from checks.gen import Col, Func, Item, J, Sel, Tab
+
+    out = []
+    for name, shape, with_in in (("extra/where_cmp_two_scalars/single", "single", False), ("extra/where_cmp_two_scalars/join_on", "join_on", False),
+                                 ("extra/where_cmp_two_scalars_and_in/single", "single", True)):
+        a = Alloc()
+        q = q_where_in(a, shape) if with_in else q_plain(a, shape)
+        q.where_cmp = (Sel([Item(Func("max", [Col(0, "cc")]))], [J("first", Tab(a.t()))]),
+                       Sel([Item(Func("max", [Col(0, "cd")]))], [J("first", Tab(a.t()))]))
+        out.append((name, stmt_of("insert", a, q)))
+        a = Alloc()
+        q = q_plain(a, shape)
+        q.where_cmp = (Sel([Item(Func("max", [Col(0, "cc")]))], [J("first", Tab(a.t()))]),
+                       Sel([Item(Func("max", [Col(0, "cd")]))], [J("first", Tab(a.t()))]))
+        out.append((name.replace("extra/", "extra/bare_"), stmt_of("bare", a, q)))
+    return out
+
+
 def obligations(tier, seed):
     rnd = random.Random("c09/%s" % seed)
     tpl = [(k, st) for k, st in corpus.build(tier, seed) if st.kind not in ("show", "use")]
     obs = []
+    for k, st in extra_templates():
+        obs.append(LegacyOb(k, st, 4, seed))
+        obs.append(DialectOb(k, st, [random.Random(k).choice(f) for f in FAMILIES], 4, seed))
     if tier == "quick":
         sub = [x for x in tpl if "/plain" in x[0] and x[0].startswith("insert/")] + rnd.sample(tpl, len(tpl) // 4)
         seen = set()
